@@ -98,6 +98,7 @@ def h_erasure(eng, tier, lang):
             same = w.sub(a, b) or (a[0] == 'B' and b[0] == 'B' and a[1] == b[1])
         obs.append(Ob('reinference|%s' % type(d).__name__, same,
                       dict(case, declaration='%s in %s' % (d.name, ns), removed=str(want), inferred=str(got))))
+    obs += extra_obligations(p0, p, typer, case)
     eng.event('erased' if t.is_transformed else 'nothing-erased')
     if decided:
         eng.event('reinferred')
@@ -105,6 +106,76 @@ def h_erasure(eng, tier, lang):
     eng.stats['undecided'] = eng.stats.get('undecided', 0) + undecided
     eng.notes['sample'] = dict(case, reinferred=decided, undecided=undecided)
     eng.notes['observe'] = len(diff)
+    return obs
+
+
+def _walk(n, parent=None):
+    yield n, parent
+    for c in (n.children() if hasattr(n, 'children') else []):
+        yield from _walk(c, n)
+
+
+def extra_obligations(p0, p, typer, case):
+    """obligations that need no typing of arbitrary expressions:
+    (diamond)  an instantiation that initialises a variable and whose type arguments became inferable: every type parameter of the class occurs in
+               a constructor parameter (field) type, or the instantiation initialises a declaration that keeps a
+               declared type of that class (expected type);
+    (reassign) a non-final variable whose type was removed: every later plain assignment to it assigns a value of
+               (a subtype of) the type inferred from the initialiser;
+    (recursive) a function whose return type was removed does not call itself in its body."""
+    obs = []
+    classes = p.context.get_classes(ast.GLOBAL_NAMESPACE, glob=True)
+    before = [n for d in P.top_decls(p0) for n, _ in _walk(d)]
+    after = [(n, par) for d in P.top_decls(p) for n, par in _walk(d)]
+    if len(before) != len(after):
+        return obs
+    d0 = {(ns, d.name, type(d).__name__): d for ns, d in declarations_with_namespace(p0)}
+    for b, (n, par) in zip(before, after):
+        if isinstance(n, ast.New) and isinstance(n.class_type, tp.ParameterizedType) and n.class_type.can_infer_type_args \
+                and isinstance(b, ast.New) and not b.class_type.can_infer_type_args:
+            cls = classes.get(n.class_type.name)
+            if cls is None or not isinstance(par, ast.VariableDeclaration):
+                continue        # elsewhere the expected type of the position may determine the arguments: undecided
+            in_fields = set()
+            for f in cls.fields:
+                ft = f.get_type()
+                if ft.is_type_var():
+                    in_fields.add(ft.name)
+                elif hasattr(ft, 'get_type_variables'):
+                    in_fields.update(v.name for v in ft.get_type_variables(p.bt_factory))
+            expected = isinstance(par, ast.VariableDeclaration) and par.var_type is not None and \
+                getattr(par.var_type, 'name', None) == n.class_type.name
+            missing = [tpar.name for tpar in cls.type_parameters if tpar.name not in in_fields]
+            obs.append(Ob('diamond|type-arguments-inferable', expected or not missing,
+                          dict(case, instantiation=str(n.class_type), not_inferable=missing,
+                               declared_type_kept=expected)))
+    for ns, d in declarations_with_namespace(p):
+        old = d0.get((ns, d.name, type(d).__name__))
+        if old is None:
+            continue
+        if isinstance(d, ast.VariableDeclaration) and not d.is_final and d.var_type is None and old.var_type is not None:
+            inferred = typer.expr(d.expr, ns)
+            if inferred is None:
+                continue
+            w = World()
+            w.top = w.snap(p.bt_factory.get_any_type())
+            fn = None
+            for ns2, f in declarations_with_namespace(p):
+                if isinstance(f, ast.FunctionDeclaration) and ns2 + (f.name,) == ns:
+                    fn = f
+            scope = [fn.body] if fn is not None and fn.body is not None else P.top_decls(p)
+            for root in scope:
+                for n, _ in _walk(root):
+                    if isinstance(n, ast.Assignment) and n.receiver is None and n.name == d.name:
+                        rt = typer.expr(n.expr, ns)
+                        if rt is None:
+                            continue
+                        obs.append(Ob('reassign|assigned-value-fits-inferred-type', w.sub(w.snap(rt), w.snap(inferred)),
+                                      dict(case, variable=d.name, inferred=str(inferred), assigned=str(rt))))
+        if isinstance(d, ast.FunctionDeclaration) and d.ret_type is None and old.ret_type is not None and d.body is not None:
+            calls_self = any(isinstance(n, ast.FunctionCall) and n.func == d.name for n, _ in _walk(d.body))
+            obs.append(Ob('recursive|erased-return-type-of-self-calling-function', not calls_self,
+                          dict(case, function=d.name)))
     return obs
 
 
